@@ -28,7 +28,7 @@ fn explore_raw(
             trace: false,
             hash: true,
             solo: None,
-            spurious_at: None,
+            spurious: false,
         };
         let rec = rt::run_threads(bodies, &o);
         rt::exec_end();
@@ -46,7 +46,7 @@ fn explore_raw(
                 trace: false,
                 hash: true,
                 solo: None,
-                spurious_at: None,
+                spurious: false,
             };
             let rec2 = rt::run_threads(b2, &o2);
             rt::exec_end();
